@@ -54,7 +54,17 @@ class Ctx:
             return out
         env = dict(os.environ); env.update(GOENV)
         cmd = ["go", "build", "-tags", "verif"] + (["-race"] if race else []) + ["-o", out, "."]
-        r = subprocess.run(cmd, cwd=HARNESS, env=env, capture_output=True, text=True, timeout=900)
+        src = HARNESS
+        alt = os.environ.get("VERIF_REPO_ALT")
+        if alt:
+            # development aid only (never set by a registered command): build against a scratch copy of the repository,
+            # so that seeded changes can be tried in parallel without touching /repo
+            src = os.path.join(self.scratch, "harness_alt")
+            if not os.path.exists(src):
+                shutil.copytree(HARNESS, src)
+                gm = open(os.path.join(src, "go.mod")).read().replace("=> /repo/", "=> %s/" % alt.rstrip("/"))
+                open(os.path.join(src, "go.mod"), "w").write(gm)
+        r = subprocess.run(cmd, cwd=src, env=env, capture_output=True, text=True, timeout=900)
         if r.returncode != 0:
             raise ToolFailure("harness build failed:\n" + r.stdout + r.stderr)
         if not race:
